@@ -111,8 +111,11 @@ class AstNode(object):
         * class member
         * namespace member
         * enumerator
+
+        Nodes which are not a scope (typedef, function, variable)
+        have no members.
         """
-        raise NotImplementedError  # virtual function
+        return None
 
     def unqualified_lookup(self, name):
         """Look for symbols within a scope.
